@@ -1,7 +1,262 @@
-(* C14 - observers are pure; copies are faithful (work in progress: theorems are added as they are proved) *)
-From BP Require Import Base.Prelude Model.Types Model.Object Model.Eq Model.Encode Model.Decode Model.History Model.C14Ops.
+(* C14 - observers are pure; copy, deepcopy and pickle are faithful.
 
+   Model: Model/Object.v (raw state of a Message), Model/Eq.v (Message.__eq__ / __bool__), Model/Encode.v (dump),
+   Model/History.v (touch = state after bytes/len/dump, get_in = attribute read at any depth, copy / deepcopy of
+   commit 0ef9c00, pickle_rt = FromString(bytes(m))), Model/C14Ops.v (observers incl. to_dict / to_json / to_pydict,
+   [mat], the presence report).
+
+   [mat_obj sc o o'] (decidable) says: o' is o in which some PLACEHOLDER slots - at any depth, in any number - hold
+   the default of their field, possibly itself written into by further reads; nothing else differs.  It is what
+   reads can do to a message: every observer, and every finite sequence of observers, takes o to a state related
+   to o by [mat_obj] (C14_observers_are_materialisations), and so do copy and deepcopy.  Nothing the property
+   names can tell such a state from o (C14_materialisation_invisible): bytes (errors included), == in both operand
+   positions against EVERY other value, bool, the presence report at every reachable message, unknown bytes.
+   All statements hold for every well-formed schema and EVERY object state (no bound, no typing or range
+   hypothesis); copy / deepcopy additionally need what every Python object has: one attribute per field.
+
+   Independence ("mutating a deep copy or an unpickled copy never affects the original") is a statement about
+   aliasing between Python objects; values are trees here, so it is checked on the implementation only
+   (harness/props/c14.py mutates every copy through every path and re-snapshots the original): the claim is
+   PARTIAL for that clause.  Equality / byte identity of a pickle round trip is the C01 round trip: taken as a
+   premise in C14_pickle_faithful_partial. *)
+From BP Require Import Base.Prelude Model.Types Model.Object Model.Eq Model.Encode Model.Decode Model.WellFormed.
+From BP Require Import Model.History Model.C14Ops Model.Canon.
+From BP Require Import Proofs.C14Mat Proofs.C14Eq Proofs.C14Enc Proofs.C14Obs Proofs.C14Pres Proofs.C14Thm Proofs.C14Refl.
+
+(* ---- the key lemma: a stored default is invisible, field by field ---- *)
+Theorem C14_materialisation_key_lemma : forall sc, wf_schema sc = true -> forall f v v',
+  mat sc f v v' = true -> v <> PPlaceholder ->
+  (forall g, is_default sc g v' = is_default sc g v) /\
+  (forall y, pv_eq sc v' y = pv_eq sc v y /\ pv_eq sc y v' = pv_eq sc y v) /\
+  (forall sel, skipped sc f sel v' = skipped sc f sel v) /\
+  (v <> PNone -> forall sel, emit_field (enc_obj sc) sc f sel v' = emit_field (enc_obj sc) sc f sel v).
+Proof. exact key_lemma. Qed.
+Print Assumptions C14_materialisation_key_lemma.
+
+(* the PLACEHOLDER itself against the default stored in its place (femit = what dump emits for the slot) *)
+Theorem C14_materialisation_of_placeholder : forall sc, wf_schema sc = true -> forall f v',
+  mat sc f PPlaceholder v' = true -> v' <> PPlaceholder ->
+  is_default sc f v' = true /\
+  (forall y, y <> PPlaceholder -> (pv_eq sc v' y || (pv_is_nan v' && pv_is_nan y)) = is_default sc f y /\
+                                  (pv_eq sc y v' || (pv_is_nan y && pv_is_nan v')) = is_default sc f y) /\
+  (forall sel, femit sc f sel v' = femit sc f sel PPlaceholder).
+Proof. exact key_lemma_placeholder. Qed.
+Print Assumptions C14_materialisation_of_placeholder.
+
+(* ---- whatever reads did to a message cannot be observed (covers an observer that raised half-way) ---- *)
+Theorem C14_materialisation_invisible : forall sc, wf_schema sc = true -> forall o o',
+  mat_obj sc o o' = true ->
+  enc_obj sc o' = enc_obj sc o /\
+  (forall x, obj_eq sc o' x = obj_eq sc o x /\ obj_eq sc x o' = obj_eq sc x o) /\
+  obj_bool sc o' = obj_bool sc o /\
+  (forall p, presence_at sc o' p = presence_at sc o p) /\
+  ounk o' = ounk o /\ ocls o' = ocls o.
+Proof. exact mat_indistinguishable. Qed.
+Print Assumptions C14_materialisation_invisible.
+
+Theorem C14_observers_are_materialisations : forall sc bs o, mat_obj sc o (observe_all sc o bs) = true.
+Proof. exact observe_all_mat. Qed.
+Print Assumptions C14_observers_are_materialisations.
+
+(* ---- one observer ---- *)
+Theorem C14_observer_enc : forall sc, wf_schema sc = true -> forall o b,
+  enc_obj sc (observe sc o b) = enc_obj sc o.
+Proof. exact observer_enc. Qed.
+Print Assumptions C14_observer_enc.
+
+Theorem C14_observer_eq : forall sc, wf_schema sc = true -> forall o b x,
+  obj_eq sc (observe sc o b) x = obj_eq sc o x /\ obj_eq sc x (observe sc o b) = obj_eq sc x o.
+Proof. exact observer_eq. Qed.
+Print Assumptions C14_observer_eq.
+
+Theorem C14_observer_presence : forall sc o b p,
+  presence_at sc (observe sc o b) p = presence_at sc o p.
+Proof. exact observer_presence. Qed.
+Print Assumptions C14_observer_presence.
+
+(* ---- every finite sequence of observers ---- *)
+Theorem C14_observers_pure : forall sc, wf_schema sc = true -> forall o bs,
+  enc_obj sc (observe_all sc o bs) = enc_obj sc o /\
+  (forall x, obj_eq sc (observe_all sc o bs) x = obj_eq sc o x /\ obj_eq sc x (observe_all sc o bs) = obj_eq sc x o) /\
+  obj_bool sc (observe_all sc o bs) = obj_bool sc o /\
+  (forall p, presence_at sc (observe_all sc o bs) p = presence_at sc o p) /\
+  ounk (observe_all sc o bs) = ounk o /\ ocls (observe_all sc o bs) = ocls o.
+Proof. exact observers_pure. Qed.
+Print Assumptions C14_observers_pure.
+
+(* is_set: untouched for every field whose raw attribute is not PLACEHOLDER - in particular for every proto3-optional
+   field of a real object (dataclass default None) *)
+Theorem C14_observer_is_set_optional : forall sc o b i,
+  nth i (oraw o) PPlaceholder <> PPlaceholder -> is_set sc (observe sc o b) i = is_set sc o i.
+Proof. exact observer_is_set. Qed.
+Print Assumptions C14_observer_is_set_optional.
+
+(* ---- copy / deepcopy: equal in every comparison, same bytes, same presence, same unknown fields, same flags ---- *)
+Theorem C14_copy_faithful : forall sc, wf_schema sc = true -> forall o,
+  shaped_top sc o = true ->
+  (enc_obj sc (copy sc o) = enc_obj sc o /\
+   (forall x, obj_eq sc (copy sc o) x = obj_eq sc o x /\ obj_eq sc x (copy sc o) = obj_eq sc x o) /\
+   obj_bool sc (copy sc o) = obj_bool sc o /\
+   (forall p, presence_at sc (copy sc o) p = presence_at sc o p) /\
+   ounk (copy sc o) = ounk o /\ ocls (copy sc o) = ocls o) /\
+  osow (copy sc o) = osow o /\ ocur (copy sc o) = ocur o.
+Proof. exact copy_faithful. Qed.
+Print Assumptions C14_copy_faithful.
+
+(* missing from the property: independence of the deep copy (aliasing; harness-only) *)
+Theorem C14_deepcopy_faithful_partial : forall sc, wf_schema sc = true -> forall o,
+  shaped_obj sc o = true ->
+  (enc_obj sc (deepcopy sc o) = enc_obj sc o /\
+   (forall x, obj_eq sc (deepcopy sc o) x = obj_eq sc o x /\ obj_eq sc x (deepcopy sc o) = obj_eq sc x o) /\
+   obj_bool sc (deepcopy sc o) = obj_bool sc o /\
+   (forall p, presence_at sc (deepcopy sc o) p = presence_at sc o p) /\
+   ounk (deepcopy sc o) = ounk o /\ ocls (deepcopy sc o) = ocls o) /\
+  osow (deepcopy sc o) = osow o /\ ocur (deepcopy sc o) = ocur o.
+Proof. exact deepcopy_faithful. Qed.
+Print Assumptions C14_deepcopy_faithful_partial.
+
+(* "equal to the original": == is reflexive when no NaN sits inside a container and dict keys are pairwise unequal *)
+Theorem C14_eq_reflexive : forall sc o, eq_refl_ok sc (PMsg o) = true -> obj_eq sc o o = true.
+Proof. exact obj_eq_refl. Qed.
+Print Assumptions C14_eq_reflexive.
+
+(* observers and copies in any order *)
+Theorem C14_copy_after_observers : forall sc, wf_schema sc = true -> forall o bs,
+  shaped_top sc (observe_all sc o bs) = true ->
+  enc_obj sc (copy sc (observe_all sc o bs)) = enc_obj sc o /\
+  (forall x, obj_eq sc (copy sc (observe_all sc o bs)) x = obj_eq sc o x /\
+             obj_eq sc x (copy sc (observe_all sc o bs)) = obj_eq sc x o) /\
+  obj_bool sc (copy sc (observe_all sc o bs)) = obj_bool sc o /\
+  (forall p, presence_at sc (copy sc (observe_all sc o bs)) p = presence_at sc o p) /\
+  ounk (copy sc (observe_all sc o bs)) = ounk o /\ ocls (copy sc (observe_all sc o bs)) = ocls o.
+Proof. exact copy_after_observers. Qed.
+Print Assumptions C14_copy_after_observers.
+
+Theorem C14_deepcopy_after_observers : forall sc, wf_schema sc = true -> forall o bs,
+  shaped_obj sc (observe_all sc o bs) = true ->
+  enc_obj sc (deepcopy sc (observe_all sc o bs)) = enc_obj sc o /\
+  (forall x, obj_eq sc (deepcopy sc (observe_all sc o bs)) x = obj_eq sc o x /\
+             obj_eq sc x (deepcopy sc (observe_all sc o bs)) = obj_eq sc x o) /\
+  obj_bool sc (deepcopy sc (observe_all sc o bs)) = obj_bool sc o /\
+  (forall p, presence_at sc (deepcopy sc (observe_all sc o bs)) p = presence_at sc o p) /\
+  ounk (deepcopy sc (observe_all sc o bs)) = ounk o /\ ocls (deepcopy sc (observe_all sc o bs)) = ocls o.
+Proof. exact deepcopy_after_observers. Qed.
+Print Assumptions C14_deepcopy_after_observers.
+
+(* ---- pickle ---- *)
 Theorem C14_pickle_is_parse_of_bytes : forall sc o,
   pickle_rt sc o = (do bs <- enc_obj sc o; parse sc (ocls o) bs).
 Proof. reflexivity. Qed.
 Print Assumptions C14_pickle_is_parse_of_bytes.
+
+(* pickling after any observers gives exactly what pickling before would have given (result or error) *)
+Theorem C14_pickle_after_observers : forall sc, wf_schema sc = true -> forall o bs,
+  pickle_rt sc (observe_all sc o bs) = pickle_rt sc o.
+Proof. exact pickle_after_observers. Qed.
+Print Assumptions C14_pickle_after_observers.
+
+(* faithful wherever the binary round trip is (C01, premise [roundtrip] over its own side condition [ok]);
+   missing: the round trip itself (C01), unknown bytes through parse (C08), independence (harness-only) *)
+Theorem C14_pickle_faithful_partial : forall sc (ok : obj -> bool),
+  (forall o, ok o = true ->
+     exists bs o', enc_obj sc o = Ok bs /\ parse sc (ocls o) bs = Ok o' /\
+                   obj_eq sc o' o = true /\ obj_eq sc o o' = true /\ enc_obj sc o' = Ok bs) ->
+  forall o, ok o = true ->
+  exists o', pickle_rt sc o = Ok o' /\ obj_eq sc o' o = true /\ obj_eq sc o o' = true /\ enc_obj sc o' = enc_obj sc o.
+Proof. exact pickle_faithful. Qed.
+Print Assumptions C14_pickle_faithful_partial.
+
+(* ================================================================================================== *)
+(* witnesses                                                                                           *)
+(* ================================================================================================== *)
+(* Inner{x:int32=1, rec:Inner=2, o:optional int32=3}  Empty{}
+   Holder{e:Empty=1, inner:Inner=2, oneof g0{a:int32=3, b:string=4}, r:repeated Inner=5, mm:map<string,Inner>=6,
+          n:int32=7, oi:optional int32=8} *)
+Definition ex_schema : schema :=
+  mkS (builtin_classes ++
+       [mkC [mkF [x78] 1 TInt32 None None None false (HPlain PyInt) 0;
+             mkF [x72] 2 TMessage None None None false (HPlain (PyMsg 11)) 0;
+             mkF [x6f] 3 TInt32 None None None true (HOptional PyInt) 0] 0;
+        mkC [] 0;
+        mkC [mkF [x65] 1 TMessage None None None false (HPlain (PyMsg 12)) 0;
+             mkF [x69] 2 TMessage None None None false (HPlain (PyMsg 11)) 0;
+             mkF [x61] 3 TInt32 None (Some 0%nat) None false (HPlain PyInt) 0;
+             mkF [x62] 4 TString None (Some 0%nat) None false (HPlain PyStr) 0;
+             mkF [x72] 5 TMessage None None None false (HList (PyMsg 11)) 0;
+             mkF [x6d] 6 TMap (Some (TString, TMessage)) None None false (HDict PyStr (PyMsg 11)) 14;
+             mkF [x6e] 7 TInt32 None None None false (HPlain PyInt) 0;
+             mkF [x70] 8 TInt32 None None None true (HOptional PyInt) 0] 1;
+        mkC [mkF [x6b; x65; x79] 1 TString None None None false (HPlain PyStr) 0;
+             mkF [x76; x61; x6c; x75; x65] 2 TMessage None None None false (HPlain (PyMsg 11)) 0] 0]) [].
+
+Example ex_schema_wf : wf_schema ex_schema = true.
+Proof. vm_compute. reflexivity. Qed.
+
+(* Holder(b="", r=[Inner(x=2)], mm={"k": Inner()}) decoded with an unknown field: nothing read yet *)
+Definition ex_obj : obj :=
+  Obj 13 [PPlaceholder; PPlaceholder; PPlaceholder; PStr [];
+          PList [PMsg (Obj 11 [PInt 2; PPlaceholder; PNone] true [] [])];
+          PDict [(PStr [x6b], PMsg (Obj 11 [PPlaceholder; PPlaceholder; PNone] false [] []))];
+          PPlaceholder; PNone] true [x98; x06; x01] [Some 3%nat].
+
+Definition ex_observers : list observer :=
+  [BGet [1%nat; 1%nat] 0%nat; BBytes; BToDict 5 false; BGet [] 0%nat; BEq ex_obj; BBool; BRepr; BToPydict 5 false; BLen].
+
+(* non-vacuity: the observers do change the raw state (four slots at three depths), the object is shaped, the
+   bytes are there, == is reflexive on it *)
+Example C14_nonvacuous :
+  cv_eqb (cv_of_obj (observe_all ex_schema ex_obj ex_observers)) (cv_of_obj ex_obj) = false /\
+  mat_obj ex_schema ex_obj (observe_all ex_schema ex_obj ex_observers) = true /\
+  shaped_obj ex_schema (observe_all ex_schema ex_obj ex_observers) = true /\
+  eq_refl_ok ex_schema (PMsg ex_obj) = true /\
+  enc_obj ex_schema (observe_all ex_schema ex_obj ex_observers) =
+    Ok [x22; x00; x2a; x02; x08; x02; x32; x03; x0a; x01; x6b; x98; x06; x01] /\
+  enc_obj ex_schema ex_obj = Ok [x22; x00; x2a; x02; x08; x02; x32; x03; x0a; x01; x6b; x98; x06; x01] /\
+  presence_at ex_schema ex_obj [SField 1%nat; SField 1%nat] = Some (false, [], [2; 2; 1]%nat) /\
+  presence_at ex_schema ex_obj [SValue 5%nat 0%nat] = Some (false, [], [2; 2; 1]%nat) /\
+  presence_at ex_schema ex_obj [] = Some (true, [Some 3%nat], [2; 2; 0; 2; 2; 2; 2; 1]%nat).
+Proof. vm_compute. repeat split; reflexivity. Qed.
+
+(* the materialised state, spelled out: m.inner.rec.x was read (three defaults stored, at depth 1, 2 and 3), bytes()
+   stored the defaults of e and n (and did not descend into the skipped inner), to_dict walked into the list
+   element and into the map value *)
+Example C14_observed_state :
+  observe_all ex_schema ex_obj ex_observers =
+  Obj 13 [PMsg (Obj 12 [] false [] []);
+          PMsg (Obj 11 [PPlaceholder; PMsg (Obj 11 [PInt 0; PPlaceholder; PNone] false [] []); PNone] false [] []);
+          PPlaceholder; PStr [];
+          PList [PMsg (Obj 11 [PInt 2; PMsg (Obj 11 [PPlaceholder; PPlaceholder; PNone] false [] []); PNone] true [] [])];
+          PDict [(PStr [x6b], PMsg (Obj 11 [PInt 0; PMsg (Obj 11 [PPlaceholder; PPlaceholder; PNone] false [] []); PNone] false [] []))];
+          PInt 0; PNone] true [x98; x06; x01] [Some 3%nat].
+Proof. vm_compute. reflexivity. Qed.
+
+(* ---- K4 (known finding): is_set of an implicit-presence field flips after a read, after bytes(), after to_dict() ---- *)
+Theorem C14_is_set_refuted :
+  exists sc o i, wf_schema sc = true /\
+    is_set sc o i = false /\
+    is_set sc (observe sc o (BGet [] i)) i = true /\
+    is_set sc (observe sc o BBytes) i = true /\
+    is_set sc (observe sc o (BToDict 5 false)) i = true.
+Proof. exists ex_schema, ex_obj, 6%nat. vm_compute. repeat split; reflexivity. Qed.
+Print Assumptions C14_is_set_refuted.
+
+(* ---- the pinned tree's copy (through the constructor, before commit 0ef9c00) was NOT faithful: a field-less child
+        that was merely read is emitted by the copy; repaired, witness kept in the regression corpus ---- *)
+Theorem C14_copy_via_constructor_refuted :
+  exists sc o, wf_schema sc = true /\ shaped_obj sc o = true /\
+    enc_obj sc o = Ok [] /\ enc_obj sc (copy_ctor sc o) = Ok [x0a; x00] /\ enc_obj sc (copy sc o) = Ok [].
+Proof.
+  exists ex_schema, (observe ex_schema (new ex_schema 13) (BGet [] 0%nat)). vm_compute. repeat split; reflexivity.
+Qed.
+Print Assumptions C14_copy_via_constructor_refuted.
+
+(* ---- outside the round trip's side conditions pickle is not faithful: Holder(a=1, b="x") keeps both raw members of
+        the oneof (the constructor does no sibling reset), only the selected one is encoded, and == reads raw values ---- *)
+Theorem C14_pickle_oneof_unclean_refuted :
+  exists sc o o', wf_schema sc = true /\ shaped_obj sc o = true /\ oneof_clean sc o = false /\
+    pickle_rt sc o = Ok o' /\ obj_eq sc o' o = false /\ enc_obj sc o' = enc_obj sc o.
+Proof.
+  exists ex_schema, (construct ex_schema 13 [(2%nat, PInt 1); (3%nat, PStr [x78])]).
+  eexists. vm_compute. repeat split; reflexivity.
+Qed.
+Print Assumptions C14_pickle_oneof_unclean_refuted.
